@@ -139,6 +139,107 @@ def translate_verifier(tree):
     return "\n".join(res)
 
 
+def translate_module_file(tree):
+    """Verifier.__init__: `self.modulefilename = os.path.join(self.tmpdir, modulename + suffix)` (the only assignment
+    of that attribute in the class), and the whole body of Verifier.get_module_name.  os.path.join / os.path.basename
+    are the primitives py_path_join / py_basename (C32/PyStr.v, posixpath); `hasattr(sys, 'gettotalrefcount')` — a
+    debug build of CPython — is the parameter debug_build.  Fail closed on any other shape."""
+    cls = [n for n in tree.body if isinstance(n, ast.ClassDef) and n.name == "Verifier"]
+    if len(cls) != 1:
+        raise Untranslatable("class Verifier not found")
+    assigns = []
+    for fn in cls[0].body:
+        if not isinstance(fn, ast.FunctionDef):
+            continue
+        for node in ast.walk(fn):
+            tgs = node.targets if isinstance(node, ast.Assign) else [node.target] if isinstance(node, (ast.AugAssign, ast.AnnAssign)) else []
+            for tg in tgs:
+                for sub in ast.walk(tg):
+                    if isinstance(sub, ast.Attribute) and sub.attr == "modulefilename":
+                        assigns.append((fn.name, node))
+    # _locate_module may replace it by the file that find_module() found for this very get_module_name()
+    loc = py2coq.find_function(tree, "_locate_module", cls="Verifier")
+    relocated = [a for a in assigns if a[0] == "_locate_module"]
+    for _, node in relocated:
+        finds = [st for st in ast.walk(loc) if isinstance(st, ast.Assign) and len(st.targets) == 1
+                 and ast.unparse(st.targets[0]) == "filename"]
+        if not (isinstance(node, ast.Assign) and ast.unparse(node) == "self.modulefilename = filename" and len(finds) == 1
+                and ast.unparse(finds[0].value).replace(" ", "").replace("\n", "").startswith(
+                    "self._vengine.find_module(self.get_module_name(),")):
+            raise Untranslatable("_locate_module assigns self.modulefilename in an unexpected way")
+    assigns = [a for a in assigns if a[0] != "_locate_module"]
+    if len(relocated) > 1 or len(assigns) != 1 or assigns[0][0] != "__init__" or not isinstance(assigns[0][1], ast.Assign) \
+            or len(assigns[0][1].targets) != 1 or ast.unparse(assigns[0][1].targets[0]) != "self.modulefilename":
+        raise Untranslatable("self.modulefilename is not assigned exactly once, in Verifier.__init__")
+    init = py2coq.find_function(tree, "__init__", cls="Verifier")
+    if assigns[0][1] not in init.body:
+        raise Untranslatable("self.modulefilename is assigned conditionally")
+    pos = init.body.index(assigns[0][1])
+    branch = [i for i, s in enumerate(init.body) if isinstance(s, ast.If) and ast.dump(s.test) == _expr("modulename")]
+    if len(branch) != 1 or branch[0] > pos:
+        raise Untranslatable("modulefilename is assembled before the module name is chosen")
+    # between the choice of the name and the assembly, modulename must not be rebound
+    for s in init.body[branch[0] + 1:pos]:
+        for sub in ast.walk(s):
+            if isinstance(sub, ast.Name) and sub.id == "modulename" and isinstance(sub.ctx, ast.Store):
+                raise Untranslatable("modulename is rebound before modulefilename is assembled")
+    fns = {"path_join": T.Fn("py_path_join", [T.STR, T.STR], T.STR, monadic=False),
+           "path_basename": T.Fn("py_basename", [T.STR], T.STR, monadic=False)}
+    sub = Subst({_expr("os.path.join"): "path_join", _expr("self.tmpdir"): "tmpdir"})
+    val = sub.visit(copy.deepcopy(assigns[0][1].value))
+    ast.fix_missing_locations(val)
+    if len(sub.used) != 2:
+        raise Untranslatable("modulefilename is not os.path.join(self.tmpdir, ...)")
+    tr = T.Trans(functions=fns)
+    tr.pure = True
+    text, ty = tr.ex(val, {"tmpdir": T.STR, "modulename": T.STR, "suffix": T.STR}, None)
+    if ty != T.STR:
+        raise Untranslatable("modulefilename is not a str")
+    out = ["(* %s:%d Verifier.__init__: self.modulefilename *)" % (SRC_V, assigns[0][1].lineno),
+           "Definition module_filename (tmpdir modulename suffix : str) : str :=\n%s.\n" % text]
+    g = py2coq.find_function(tree, "get_module_name", cls="Verifier")
+    if [a.arg for a in g.args.args] != ["self"] or g.args.vararg or g.args.kwarg or g.args.kwonlyargs or g.decorator_list:
+        raise Untranslatable("signature of get_module_name")
+    sub2 = Subst({_expr("os.path.basename"): "path_basename", _expr("self.modulefilename"): "modulefilename",
+                  _expr("hasattr(sys, 'gettotalrefcount')"): "debug_build"})
+    body = [sub2.visit(copy.deepcopy(st)) for st in g.body]
+    for st in body:
+        ast.fix_missing_locations(st)
+    if len(sub2.used) != 3:
+        raise Untranslatable("get_module_name: os.path.basename / self.modulefilename / hasattr(sys, 'gettotalrefcount') expected")
+    for st in body:
+        for n in ast.walk(st):
+            if isinstance(n, ast.Name) and n.id in ("self", "os", "sys"):
+                raise Untranslatable("get_module_name reads %s in an unexpected way" % n.id)
+    tr2 = T.Trans(functions=fns)
+    tr2.pure, tr2.ret, tr2.tmp, tr2.in_loop, tr2.mut_param = True, T.STR, 0, 0, None
+    btext = tr2.block(body, {"modulefilename": T.STR, "debug_build": T.BOOL}, None)
+    out.append("(* %s:%d Verifier.get_module_name; debug_build = hasattr(sys, 'gettotalrefcount') *)" % (SRC_V, g.lineno))
+    out.append("Definition get_module_name (debug_build : bool) (modulefilename : str) : str :=\n%s.\n" % btext)
+    return "\n".join(out)
+
+
+def translate_class_keys(repo, tv):
+    """the `_class_key` class attributes of the two engines that _locate_engine_class can return"""
+    loc = py2coq.find_function(tv, "_locate_engine_class")
+    rets = [ast.unparse(n.value) for n in ast.walk(loc) if isinstance(n, ast.Return)]
+    if sorted(rets) != ["vengine_cpy.VCPythonEngine", "vengine_gen.VGenericEngine"]:
+        raise Untranslatable("_locate_engine_class returns %s" % rets)
+    keys = []
+    for mod, cname in (("vengine_cpy", "VCPythonEngine"), ("vengine_gen", "VGenericEngine")):
+        tree = py2coq.parse_source(os.path.join(repo, "src/cffi/%s.py" % mod))
+        cls = [n for n in tree.body if isinstance(n, ast.ClassDef) and n.name == cname]
+        if len(cls) != 1:
+            raise Untranslatable("class %s not found" % cname)
+        vals = [n.value for n in ast.walk(cls[0]) if isinstance(n, ast.Assign)
+                and any("_class_key" in ast.unparse(t) for t in n.targets)]
+        if len(vals) != 1 or not (isinstance(vals[0], ast.Constant) and isinstance(vals[0].value, str)):
+            raise Untranslatable("%s._class_key is not a single string constant" % cname)
+        keys.append(T.lit(vals[0].value))
+    return ("(* src/cffi/vengine_cpy.py, src/cffi/vengine_gen.py: _class_key of the engines returned by "
+            "_locate_engine_class *)\nDefinition class_keys : list str := [%s].\n" % "; ".join(keys))
+
+
 def translate_cdefsources(tree):
     """FFI.__init__ / FFI._cdef / FFI.include: every statement that touches self._cdefsources, fail closed.
     _cdef must append its source; include must append a literal, extend with the included FFI's list, append a
@@ -228,6 +329,8 @@ def translate(repo):
     out.append("(* %s:110 *)" % SRC_F)
     out.append(T.Trans(functions={"_flatten": sig}, globals_=glob).function(f2, sig2, extra_binders="(fuel : nat) "))
     out.append(translate_verifier(tv))
+    out.append(translate_module_file(tv))
+    out.append(translate_class_keys(repo, tv))
     out.append(translate_cdefsources(py2coq.parse_source(os.path.join(repo, SRC_A))))
     return "\n".join(out)
 
@@ -283,13 +386,18 @@ def gen_sources(rng):
     return out
 
 
+# tags: plain, with a '.', (get_module_name keeps what precedes the first '.'), ending in "_d" / being "_d" (the
+# debug-build rule of get_module_name)
+TAGS = ["", "", "t", "foo", "a.b", "x_d", "_d", "v1.2", "d", "t_"]
+
+
 def gen_input(rng, allow_other=False):
     nk = rng.choice([0, 0, 1, 2, 3, 5])
     keys = rng.sample(KEYS, nk)
     return dict(sources=gen_sources(rng),
                 preamble=rng.choice(["", "#include <math.h>", "int x;", "a", "a\x00b", "é", "static int f(void){return 1;}"]),
                 kwds=[[k, gen_value(rng, 1, allow_other and rng.random() < 0.3)] for k in keys],
-                tag=rng.choice(["", "", "t", "foo"]), generic=rng.random() < 0.3)
+                tag=rng.choice(TAGS), generic=rng.random() < 0.3, debug=rng.random() < 0.25)
 
 
 def resplit(rng, strs):
@@ -433,6 +541,14 @@ def has_other(v):
     return False
 
 
+def finding_key_name(case):
+    """known-finding class of two inequivalent inputs with one get_module_name() and different CRC pairs: both were
+    given a tag that contains a '.' (get_module_name cuts the file name at its first '.')"""
+    if "." in case["a"].get("tag", "") and "." in case["b"].get("tag", ""):
+        return "dotted_tag"
+    return None
+
+
 def finding_key(case):
     """known-finding class of a colliding pair: the two inputs agree on everything but the cdef sources,
     and a source contains a NUL character"""
@@ -489,6 +605,12 @@ Definition name_model (fuel : nat) (version vvm preamble : str) (kwds : list (st
     (tag ck : str) (ev : list N) (c1 c2 : Z) : res str :=
   bind (flatten fuel (PDict kwds)) (fun fk =>
   module_name (crc_tab ev c1 c2) tag ck (verify_key version vvm preamble fk sources)).
+Definition observed_model (fuel : nat) (version vvm preamble : str) (kwds : list (str * pyval)) (sources : list str)
+    (tag ck : str) (ev : list N) (c1 c2 : Z) (debug : bool) (tmpdir suffix : str) : res str :=
+  bind (name_model fuel version vvm preamble kwds sources tag ck ev c1 c2) (fun n =>
+  Ok (get_module_name debug (module_filename tmpdir n suffix))).
+Definition pathprims (x : str * str) := (py_basename (fst x), py_path_join (fst x) (snd x), py_endswith (fst x) (snd x),
+  py_item0 (py_split1 46 (fst x)), py_slice_to_neg 2 (fst x)).
 Definition hexnames (z : Z) := (py_rstrip (py_lstrip (py_hex z) [48;120]%N) [76]%N, py_rstrip (py_lstrip (py_hex z) [48]%N) [76]%N).
 Definition halves (l : list N) := (py_slice_step2 0 l, py_slice_step2 1 l).
 """
@@ -521,6 +643,12 @@ def prim_groups(ctx, c):
                                0x9f, 0xa0, 0x8f, 0x90, rng.randrange(256)]) for _ in range(rng.randrange(0, 6)))
              for _ in range(n)] + [t.encode("utf-8", "surrogatepass") for t in texts[:n // 2]]
 
+    import posixpath
+    pieces = ["", "/", "a", "_d", "a_d", ".", "a.b", "/tmp/x", "/tmp/x/", "x/", "_cffi_t_x1x2", ".so", "d", "_", "//", "a/b.c/d.e",
+              ".cpython-312.so", "é", "a.", "/a"]
+    paths = [(rng.choice(pieces) + rng.choice(pieces + [""] * 8), rng.choice(pieces) + rng.choice(pieces + [""] * 8))
+             for _ in range(n)] + [(x, y) for x in pieces[:12] for y in pieces[:12]]
+
     def enc(t):
         try:
             return "(Some %s)" % cbytes(t.encode("utf-8"))
@@ -532,7 +660,7 @@ def prim_groups(ctx, c):
             return "(Some %s)" % cstr(b.decode("utf-8"))
         except UnicodeDecodeError:
             return "None"
-    ctx.count(len(ints) + len(u32) + 2 * len(strs) + len(texts) + len(blobs))
+    ctx.count(len(ints) + len(u32) + 2 * len(strs) + len(texts) + len(blobs) + len(paths))
     own = [c]
     return [
         ("py_dec", "py_dec", "list_eqb N.eqb", [(cz(z), cstr("%d" % z)) for z in ints], own * len(ints), "C32.PyStr.py_dec vs '%d' %"),
@@ -546,6 +674,13 @@ def prim_groups(ctx, c):
          [(clist([cstr(s) for s in l]), cstr("\x00".join(l))) for l in strs], own * len(strs), "C32.PyStr.py_join vs str.join"),
         ("halves", "halves", "pair_eqb (list_eqb N.eqb) (list_eqb N.eqb)",
          [(cbytes(b), cpair(cbytes(b[0::2]), cbytes(b[1::2]))) for b in blobs], own * len(blobs), "py_slice_step2 vs x[k::2]"),
+        ("pathprims", "pathprims",
+         "fun a b => match a, b with (a1, a2, a3, a4, a5), (b1, b2, b3, b4, b5) => list_eqb N.eqb a1 b1 && list_eqb N.eqb a2 b2 "
+         "&& Bool.eqb a3 b3 && list_eqb N.eqb a4 b4 && list_eqb N.eqb a5 b5 end",
+         [("(%s, %s)" % (cstr(x), cstr(y)),
+           "(%s, %s, %s, %s, %s)" % (cstr(posixpath.basename(x)), cstr(posixpath.join(x, y)), cbool(x.endswith(y)),
+                                     cstr(x.split(".", 1)[0]), cstr(x[:-2])))
+          for x, y in paths], own * len(paths), "C32.PyStr path primitives vs posixpath / str methods"),
         ("utf8_encode", "utf8_encode", "opt_eqb (list_eqb N.eqb)", [(cstr(t), enc(t)) for t in texts], own * len(texts),
          "C24.Utf8.utf8_encode vs str.encode('utf-8')"),
         ("utf8_decode", "utf8_decode", "opt_eqb (list_eqb N.eqb)", [(cbytes(b), dec(b)) for b in blobs], own * len(blobs),
@@ -614,7 +749,8 @@ def evaluate(ctx, cases):
                     ctx.violation(c, "two different inputs get the same verify() module name %s although neither CRC32 "
                                   "collides (crc pairs %s and %s): [%s] and [%s]" % (
                                       a["name"], ["%08x" % x for x in a["crc"]], ["%08x" % x for x in b["crc"]],
-                                      describe(c["a"]), describe(c["b"])))
+                                      describe(c["a"]), describe(c["b"])) + " (tags %r, %r)" % (c["a"].get("tag"), c["b"].get("tag")),
+                                  key=finding_key_name(c))
                 elif not same_input and a["key"] == b["key"]:
                     ctx.violation(c, "two different inputs give the same verify() key (and module name %s): [%s] and [%s]"
                                   % (a["name"], describe(c["a"]), describe(c["b"])), key=finding_key(c))
@@ -685,12 +821,17 @@ def evaluate(ctx, cases):
                     ctx.mismatch(c, "captured CRCs are not those of the even/odd bytes", "harness assumption")
             else:
                 extra = "%s %s %s %s" % (cstr("x"), cbytes(b""), cz(0), cz(0))
-            lit = "(name_model %d %s %s %s %s %s %s %s)" % (
+            lit = "(observed_model %d %s %s %s %s %s %s %s %s %s %s)" % (
                 FUEL, cstr(version), cstr(vvm), cstr(inp["preamble"]), ckvs(inp["kwds"]),
-                clist([cstr(x) for x in inp["sources"]]), cstr(inp["tag"]), extra)
+                clist([cstr(x) for x in inp["sources"]]), cstr(inp["tag"]), extra,
+                cbool(bool(inp.get("debug"))), cstr(r.get("tmpdir", "")), cstr(r.get("suffix", "")))
             ncoq.append((lit, cres(r, lambda r: cstr(r["name"]))))
+            ctx.hist("tag", inp["tag"])
+            if "name" in r:
+                chosen = os.path.basename(r["modulefilename"])[:-len(r["suffix"])]
+                ctx.hist("observed_name", "the chosen name" if r["name"] == chosen else "cut")
         groups.append(("module_name", "fun x => x", "res_eqb (list_eqb N.eqb)", ncoq, names,
-                       "C32.Gen.module_name vs Verifier(...).get_module_name()"))
+                       "C32.Gen.module_name + module_filename + get_module_name vs Verifier(...).get_module_name()"))
     groups = [g for g in groups if g[3]]
     res = c35.multi_mismatches([g[:4] for g in groups], PRELUDE)
     for name, fexpr, eqb, cs, own, corr in groups:
@@ -801,7 +942,7 @@ def run(ctx):
         "prims: py_dec / hex+strip / sorted / join / step slices / UTF-8 codec of the model vs CPython on random and "
         "boundary inputs; flatten: random nested values (str incl. digit/tag look-alikes, NUL, non-ASCII; ints incl. "
         "big/negative; bool; list; tuple; dict; unsupported objects) through the real ffiplatform.flatten vs the "
-        "regenerated model; name: random (cdef list, source, kwargs, tag, engine) through Verifier(...) in three "
+        "regenerated model; name: random (cdef list, source, kwargs, tag incl. dotted and _d tags, engine, simulated debug build) through Verifier(...) in three "
         "processes with PYTHONHASHSEED 0/1/4242, two keyword orders each and a repeated call — name and hashed bytes "
         "must coincide — and vs the model with the observed CRCs; pair: two close inputs (strings re-split across list "
         "items, list/tuple, True/1, text moved between source, kwargs and cdefs, sources joined/split, NUL in a comment) — "
@@ -839,8 +980,23 @@ MANIFEST = dict(
          "property names (C32_cdefsources_injective, C32_user_key_injective); the name is a function of tag, engine and the two CRCs and, "
          "through hex()/lstrip/rstrip and the 'x' left between the two numbers, injective in that pair: inequivalent inputs "
          "share a name only if two different byte strings have the same CRC pair (C32_same_name_only_by_crc_collision). "
+         "Tag and engine free on both sides: the name also determines tag and engine key (last-underscore decoding, "
+         "C32_name_injective_in_tag_engine; hypotheses discharged for the regenerated engine keys 'x'/'g' by C32_class_keys; "
+         "C32_same_name_only_by_crc_collision_any_tag). What the property observes, Verifier.get_module_name(), is regenerated "
+         "together with the assembly of self.modulefilename (Gen.v get_module_name, module_filename; os.path.join/basename are "
+         "posixpath primitives of C32/PyStr.v, hasattr(sys,'gettotalrefcount') is the parameter debug_build): it returns the "
+         "chosen name for every '.'-free tag, debug build or not (C32_get_module_name, C32_get_module_name_of_chosen); with a '.' "
+         "in the tag it returns '_cffi_' + the tag's part before the dot for EVERY key (C32_dotted_tag_collapses, "
+         "C32_dotted_tag_refuted; replayed on the real code: known finding dotted_tag). C32_key_deterministic is "
+         "C32_order_independent under equal fields. "
          "The real formatting code is probed on every run with chosen CRC pairs; a clash is turned into two real inputs by "
          "CRC32 forgery (GF(2) elimination over a comment in the source).",
-    note="Trusted: Coq kernel; translator + primitive libraries (validated against CPython each run); CRC32 "
-         "uninterpreted. Known finding nul_in_source.",
+    note="Trusted: Coq kernel; translator + primitive libraries (validated against CPython each run, incl. the path "
+         "primitives vs posixpath); CRC32 uninterpreted. Regenerated: _flatten, flatten, verify_key, module_name, "
+         "module_filename, get_module_name, class_keys, cdefsources. Hand-written: key_of (Proofs.v), the suffix "
+         "(_get_so_suffixes()[0], assumed to start with '.'), _locate_engine_class's choice between the two engines, "
+         "_locate_module's replacement of modulefilename by the file found under the same get_module_name() (shape pinned "
+         "by the driver, not modelled). Correspondence only: equality of names across processes / hash seeds / keyword "
+         "orders; tags now include 'a.b', 'v1.2', 'x_d', '_d' and a simulated debug build. Known findings nul_in_source, "
+         "dotted_tag.",
     design_ref="DESIGN.md §4 C32")
